@@ -58,6 +58,11 @@ class Run(object):
         self.scen = scen
         self.tmp = tempfile.mkdtemp(prefix="verif-auth-")
         self.cookie = COOKIE
+        # (cookies are random bytes: in two of three runs the last one is a line-feed or carriage-return byte)
+        if order_seed % 3 == 1:
+            self.cookie = COOKIE[:31] + b"\n"
+        elif order_seed % 3 == 2:
+            self.cookie = COOKIE[:31] + b"\r"
         self.cookiepath = None
         c = scen["cookie"]
         if c != "nofield":
@@ -66,7 +71,8 @@ class Run(object):
             if c == "unreadable":
                 pass        # the file does not exist
             else:
-                data = self.cookie if c in ("valid", "escaped") else (self.cookie[:31] if c == "short" else self.cookie + b"x")
+                data = self.cookie if c in ("valid", "escaped") else (self.cookie[:31] if c == "short" else
+                                                                       self.cookie + [b"x", b"\n", b"\r\n", b"\r"][order_seed % 4])
                 with open(self.cookiepath, "wb") as f:
                     f.write(data)
         self.pwcalls = 0
